@@ -196,3 +196,26 @@ Example C16_hypotheses_satisfiable :
   let m := [(string_of_bytes (utf8 [97; 34; 98]), VNull); (string_of_bytes (utf8 [120]), VBool true)] in
   small (VObj m) /\ ok st_init /\ lookup m (string_of_bytes (utf8 [97; 34; 98])) = Some VNull.
 Proof. cbv zeta. split; [cbn; repeat split|]. split; [repeat split|]. vm_compute. reflexivity. Qed.
+
+(* A member name inside a FILTER operand (KeyFilt.v): the existence tests over a single-quoted, double-quoted or dot name select exactly the members of the
+   document that are objects having a member named k, in member order (elements in index order, member values in ascending key
+   order), and `$[?(!@…)]` exactly the others — for every key the spelling can express; they fail when that selection is empty. *)
+From JP Require Import FiltChain FiltChainAddr ErrNames BoolText KeyFilt.
+Theorem C16_member_test_in_filter_operand : forall cfg parse_float regex_ok ffun afun regex_match,
+  (forall f v w, small v -> ffun f v = Some w -> small w) ->
+  (forall f l w, Forall small l -> afun f l = Some w -> small w) ->
+  forall neg s doc st, step_ok s = true -> is_name s = true -> small doc -> ok st ->
+  exists t, parse_with cfg parse_float regex_ok jsonpath_grammar (fchain_path [name_filter neg s]) = ParseOk t /\
+            match filter (fun m => xorb neg (has_member s (snd m))) (members ([], doc)) with
+            | [] => exists e, fst (eval_run ffun afun regex_match t doc st) = OErr e
+            | l => fst (eval_run ffun afun regex_match t doc st) = OOk (map (loc_result cfg) l)
+            end.
+Proof. exact name_in_filter_operand. Qed.
+Print Assumptions C16_member_test_in_filter_operand.
+
+(* the existence test over the double-quoted name a-quote-b, and the negated test over the dot name k, as texts *)
+Example C16_filter_operand_example :
+  fchain_path [name_filter false (SBr 34 [97; 34; 98])] = [36; 91; 63; 40; 64; 91; 34; 97; 92; 34; 98; 34; 93; 41; 93] /\
+  fchain_path [name_filter true (SDot [107])] = [36; 91; 63; 40; 33; 64; 46; 107; 41; 93] /\
+  step_ok (SBr 34 [97; 34; 98]) = true /\ is_name (SBr 34 [97; 34; 98]) = true.
+Proof. repeat split; vm_compute; reflexivity. Qed.
